@@ -608,7 +608,7 @@ void ExpressionBuilder::expr_dot(const char* id)
         if (dynamicFrames.find(expr.get_symbol().get_name()) == dynamicFrames.end()) {
             throw UnknownIdentifierError(expr.get_symbol().get_name());
         }
-        push_frame(dynamicFrames[expr.get_symbol().get_name()]);
+        push_frame(dynamicFrames[expr.get_symbol().get_name()].back());
 
         if (!resolve(id, uid)) {
             popFrame();  // do not leave the template's frame on the scope stack (enclosing quantifiers use frames.top())
@@ -1096,7 +1096,14 @@ void ExpressionBuilder::push_dynamic_frame_of(template_t* t, string name)
     if (!t->is_defined) {
         throw TypeException("Template referenced before used");
     }
-    dynamicFrames[name] = t->frame;
+    dynamicFrames[name].push_back(t->frame);  // an inner binder of the same name hides, not replaces, the outer one
 }
 
-void ExpressionBuilder::pop_dynamic_frame_of(string name) { dynamicFrames.erase(name); }
+void ExpressionBuilder::pop_dynamic_frame_of(string name)
+{
+    if (auto it = dynamicFrames.find(name); it != dynamicFrames.end()) {
+        it->second.pop_back();
+        if (it->second.empty())
+            dynamicFrames.erase(it);
+    }
+}
